@@ -45,9 +45,12 @@ def run(ctx):
             ops.append(f'sxg.hdrint {exs(e)}')
             ops.append(f'sxg.write {exs(e)}')
             k = rng.choice(w.keys)
-            ops.append(f'sxg.sign.mock {exs(e)} {k["cert"]} {hexs(b"https://example.com/cert.msg")} {hexs(b"https://example.com/v")} {abs(d) % 2**40} {abs(d) % 2**40 + 3600}')
+            # signer dates with a sub-second part: the signed message and the Signature header both carry Date.Unix() (truncation)
+            ns = rng.choice(['', ':0', ':1', ':499999999', ':500000000', ':500000001', ':999999999'])
+            ns2 = rng.choice(['', ':500000000', ':999999999'])
+            ops.append(f'sxg.sign.mock {exs(e)} {k["cert"]} {hexs(b"https://example.com/cert.msg")} {hexs(b"https://example.com/v")} {abs(d) % 2**40}{ns} {abs(d) % 2**40 + 3600}{ns2}')
         # header-set sizes: every CBOR length class for the map header and for names/values
-        for n, vlen in [(0, 0), (1, 23), (1, 24), (22, 1), (23, 1), (24, 1), (3, 255), (3, 256), (70, 10)] + ([(300, 3), (2, 65535), (2, 65536), (9, 60000)] if thorough else [(256, 1), (2, 65536)]):
+        for n, vlen in [(0, 0), (1, 23), (1, 24), (22, 1), (23, 1), (24, 1), (3, 255), (3, 256), (70, 10)] + ([(300, 3), (2, 65534), (2, 65535), (2, 65536), (2, 65537), (9, 60000)] if thorough else [(256, 1), (1, 65535), (2, 65536)]):
             e = ex(ver, b'https://example.com/', b'GET', big_headers(rng, n, vlen) if ver != 'b3' else [], 200, big_headers(rng, n, vlen))
             ops += [f'sxg.hdr {exs(e)}', f'sxg.write {exs(e)}', f'sxg.msg {exs(e)} {"bb" * 32} {hexs(b"https://example.com/v")} 5 10']
         # duplicate names after case folding, pseudo-header collisions
